@@ -81,6 +81,29 @@ example : (match evalStmt Program.empty 10
     | .err (.runtime 2 _) s' => s'.faults == 1 && s'.faultOut == s'.out.length
     | _ => false) = true := by decide +kernel
 
+/-- non-vacuity of the other hypotheses: `print 1` completes normally (one chunk appended), `next`
+    ends in a signal, `1` evaluates to a value — all without a fault -/
+example : (match evalStmt Program.empty 10 (.print ⟨.print, 0, b!"print"⟩ [.lit ⟨.num, 6, b!"1"⟩])
+      { newEvaluator Program.empty Heap.empty [] 0 with ruleRoot := some 0 } with
+    | .ok () s' => s'.faults == 0 && s'.out == [b!"1\n"] | _ => false) = true := by decide +kernel
+example : (match evalStmt Program.empty 10 (.next ⟨.next, 0, b!"next"⟩)
+      (newEvaluator Program.empty Heap.empty [] 0) with
+    | .err (.sig .next) s' => s'.faults == 0 | _ => false) = true := by decide +kernel
+example : (match evalExpr Program.empty 10 (.lit ⟨.num, 0, b!"1"⟩)
+      (newEvaluator Program.empty Heap.empty [] 0) with
+    | .ok _ s' => s'.faults == 0 | _ => false) = true := by decide +kernel
+/-- non-vacuity of `fault_stops_the_run_expr`: `1 / 0` as an expression -/
+example : (match evalExpr Program.empty 10
+      (.binary (.lit ⟨.num, 0, b!"1"⟩) (.lit ⟨.num, 4, b!"0"⟩) ⟨.divide, 2, []⟩)
+      (newEvaluator Program.empty Heap.empty [] 0) with
+    | .err (.runtime 2 _) s' => s'.faults == 1 | _ => false) = true := by decide +kernel
+/-- non-vacuity of `syntax_preempts`: a valid `BEGIN` rule that prints, followed by a rule with a
+    syntax error — the text does not parse, and the run has no output -/
+example : (match parseProgramSrc expectedRuleTable b!"BEGIN { print 1 }\n{ 1 = 2 }" with
+    | .syntaxErr _ => true | _ => false) = true ∧
+    (evalProgram expectedRuleTable b!"BEGIN { print 1 }\n{ 1 = 2 }" [] []).out = [] := by
+  decide +kernel
+
 /-! ### static rejections: what a program that parses cannot contain -/
 
 /-- **`return` outside a function is rejected**: in a program that parses (any rule table, any
@@ -146,6 +169,9 @@ theorem break_outside_loop_fails (tbl : RuleTable) (n : Nat) (ps : PS) (h2 : ps.
 
 example : (⟨⟨.return_, 7, []⟩, Token.zero, false, false, false⟩ : PS).cur.tag = .return_ ∧
     (⟨⟨.return_, 7, []⟩, Token.zero, false, false, false⟩ : PS).inFn = false := ⟨rfl, rfl⟩
+example : (⟨⟨.break_, 7, []⟩, Token.zero, false, true, false⟩ : PS).cur.tag = .break_ ∧
+    (⟨⟨.continue_, 7, []⟩, Token.zero, false, true, false⟩ : PS).cur.tag = .continue_ ∧
+    (⟨⟨.break_, 7, []⟩, Token.zero, false, true, false⟩ : PS).inLoop = false := ⟨rfl, rfl, rfl⟩
 
 /-! ### assignment targets -/
 
@@ -236,5 +262,23 @@ theorem run_fault_discipline (prog : Program) (src : Bytes) (tbl : RuleTable) (s
   have s0f : (newEvaluator prog Heap.empty [] 0).faults = 0 := rfl
   revert h
   cases (runProgram prog src tbl sels files).outcome <;> simp [faultsOK, s0f]
+
+/-- non-vacuity of `run_fault_discipline`: a run that prints, then divides by zero — it has a final
+    state, ends in a runtime error, one fault, and the output is what was printed before it -/
+example : (match parseProgramSrc expectedRuleTable b!"BEGIN { print 1; print 2 / 0; print 3 }" with
+    | .ok p =>
+      let r := runProgram p b!"BEGIN { print 1; print 2 / 0; print 3 }" expectedRuleTable [] []
+      (match r.st, r.outcome with
+       | some st, .runtimeErr _ _ _ => st.faults == 1 && r.out == b!"1\n"
+       | _, _ => false)
+    | _ => false) = true := by decide +kernel
+/-- … and one that ends successfully with a final state -/
+example : (match parseProgramSrc expectedRuleTable b!"BEGIN { print 1 }" with
+    | .ok p =>
+      let r := runProgram p b!"BEGIN { print 1 }" expectedRuleTable [] []
+      (match r.st, r.outcome with
+       | some st, .ok => st.faults == 0 && r.out == b!"1\n"
+       | _, _ => false)
+    | _ => false) = true := by decide +kernel
 
 end Jqawk.C11
